@@ -451,9 +451,13 @@ func (x *yyLex) Lex(yylval *yySymType) (ret int) {
 			}
 		case readIndent:
 			// Read the initial indent and get rid of it
-			trimmed := strings.TrimLeft(x.line, " \t")
+			trimmed := strings.TrimLeft(x.line, " \t\f")
 			removed := len(x.line) - len(trimmed)
 			x.currentIndent = x.line[:removed]
+			// A form feed is white space which restarts the count of the indentation
+			if i := strings.LastIndexByte(x.currentIndent, '\f'); i >= 0 {
+				x.currentIndent = x.currentIndent[i+1:]
+			}
 			x.pos.ColOffset += removed
 			x.line = trimmed
 			x.state++
@@ -511,7 +515,7 @@ func (x *yyLex) Lex(yylval *yySymType) (ret int) {
 			}
 		case parseTokens:
 			// Skip white space
-			trimmed := strings.TrimLeft(x.line, " \t")
+			trimmed := strings.TrimLeft(x.line, " \t\f")
 			x.pos.ColOffset += len(x.line) - len(trimmed)
 			x.line = trimmed
 
